@@ -5,6 +5,7 @@ use verif_hooks::push_u32;
 
 pub fn fingerprint_header(header: &ChunkHeader, out: &mut Vec<u8>) {
     // Exhaustive destructuring: a new field must be added here explicitly.
+    #[cfg(not(feature = "verif-lax"))]
     let ChunkHeader {
         chunk_stream_id,
         timestamp,
@@ -13,6 +14,17 @@ pub fn fingerprint_header(header: &ChunkHeader, out: &mut Vec<u8>) {
         message_type_id,
         message_stream_id,
         can_be_dropped,
+    } = header;
+    #[cfg(feature = "verif-lax")]
+    let ChunkHeader {
+        chunk_stream_id,
+        timestamp,
+        timestamp_field,
+        message_length,
+        message_type_id,
+        message_stream_id,
+        can_be_dropped,
+        ..
     } = header;
 
     push_u32(out, *chunk_stream_id);
@@ -26,9 +38,16 @@ pub fn fingerprint_header(header: &ChunkHeader, out: &mut Vec<u8>) {
 
 impl ChunkSerializer {
     pub fn verif_fingerprint(&self, out: &mut Vec<u8>) {
+        #[cfg(not(feature = "verif-lax"))]
         let ChunkSerializer {
             previous_headers,
             max_chunk_size,
+        } = self;
+        #[cfg(feature = "verif-lax")]
+        let ChunkSerializer {
+            previous_headers,
+            max_chunk_size,
+            ..
         } = self;
 
         push_u32(out, *max_chunk_size);
